@@ -406,7 +406,18 @@ var sqlMethods = map[string]int{ // method -> index of the query argument among 
 	"ExecContext": 1, "QueryContext": 1, "QueryRowContext": 1, "PrepareContext": 1,
 }
 
+var sqlCatMemo = map[*Ctx]*SQLCat{}
+
 func buildSQLCat(c *Ctx) *SQLCat {
+	if m, ok := sqlCatMemo[c]; ok {
+		return m
+	}
+	cat := buildSQLCat1(c)
+	sqlCatMemo[c] = cat
+	return cat
+}
+
+func buildSQLCat1(c *Ctx) *SQLCat {
 	cat := &SQLCat{c: c, Tables: map[string]*SQLTable{}}
 	se := &strEval{c: c}
 	for _, f := range c.Funcs {
@@ -729,5 +740,21 @@ func (cat *SQLCat) stmtsIn(set map[*ssa.Function]bool) []*SQLStmt {
 			out = append(out, s)
 		}
 	}
+	return out
+}
+
+var tableRefRe = regexp.MustCompile(`(?i)\b(?:from|join|into|update)\s+"?([a-z_][a-z_0-9]*)"?`)
+
+// tablesIn lists every table a statement names after FROM/JOIN/INTO/UPDATE (sub-selects included), sorted.
+func tablesIn(text string) []string {
+	seen := map[string]bool{}
+	for _, m := range tableRefRe.FindAllStringSubmatch(text, -1) {
+		seen[strings.ToLower(m[1])] = true
+	}
+	var out []string
+	for t := range seen {
+		out = append(out, t)
+	}
+	sort.Strings(out)
 	return out
 }
